@@ -195,7 +195,89 @@ func ruleTAsm(c *Ctx) {
 		}
 	}
 	if flag == nil {
-		c.Undecided("T-asm", "ToASM/data-flag", fn.Pos(), "the data-script flag is not a value merged from the script's leading bytes")
+		// the flag may be the result of a predicate on the script's bytes (a helper): decided on its paths
+		var callee *ssa.Function
+		for _, d := range paths {
+			for _, pc := range d.Conds {
+				bases := map[string]*T{}
+				baseTerms(pc.Cond, bases)
+				if t, ok := bases[dataT]; ok {
+					if call, isCall := t.V.(*ssa.Call); isCall && call.Call.StaticCallee() != nil && inScope(pkgPathOf(call.Call.StaticCallee())) {
+						callee = call.Call.StaticCallee()
+					}
+				}
+			}
+		}
+		if callee == nil || len(callee.Params) != 1 {
+			c.Undecided("T-asm", "ToASM/data-flag", fn.Pos(), "the data-script flag is neither merged from tests of the script's leading bytes nor the result of a predicate on the script")
+			return
+		}
+		cp, err := enumPaths(callee.Blocks[0], nil, nil, 1024)
+		if err != nil {
+			c.Undecided("T-asm", "ToASM/data-flag", callee.Pos(), err.Error())
+			return
+		}
+		badFlag := ""
+		fcells := 0
+		for _, ln := range []int64{1, 2, 3, 30} {
+			for _, s0 := range []int64{0x00, 0x51, 0x6a, 0x76} {
+				for _, s1 := range []int64{0x00, 0x51, 0x6a} {
+					hits, val := 0, false
+					for _, d := range cp {
+						if d.EndKind != "return" {
+							continue
+						}
+						asgOf := func(t *T) map[string]*big.Int {
+							bases := map[string]*T{}
+							baseTerms(t, bases)
+							asg := map[string]*big.Int{}
+							for k := range bases {
+								switch {
+								case strings.HasPrefix(k, "len("):
+									asg[k] = big.NewInt(ln)
+								case strings.HasSuffix(k, "[0]"):
+									asg[k] = big.NewInt(s0)
+								case strings.HasSuffix(k, "[1]"):
+									asg[k] = big.NewInt(s1)
+								}
+							}
+							return asg
+						}
+						holds := true
+						for _, pc := range d.Conds {
+							v, ok := evalTerm(pc.Cond, asgOf(pc.Cond))
+							if !ok {
+								c.Undecided("T-asm", "ToASM/data-flag", callee.Pos(), "the data-script predicate decides on "+atomName(pc.Cond))
+								return
+							}
+							if (v.Sign() != 0) != pc.Truth {
+								holds = false
+							}
+						}
+						if !holds {
+							continue
+						}
+						rt := d.Env.Term(d.Ret.Results[0])
+						rv, ok := evalTerm(rt, asgOf(rt))
+						if !ok {
+							hits += 2
+							continue
+						}
+						hits++
+						val = rv.Sign() != 0
+					}
+					fcells++
+					isDataScript := s0 == 0x6a || (s0 == 0 && s1 == 0x6a && ln > 1)
+					if hits == 1 && val && !isDataScript && badFlag == "" {
+						badFlag = fmt.Sprintf("a script of %d bytes starting %02x %02x is treated as a data script", ln, s0, s1)
+					}
+					if hits != 1 && badFlag == "" && ln > 1 {
+						badFlag = fmt.Sprintf("the data-script predicate is not decided by the leading bytes alone (length %d, %02x %02x: %d alternatives)", ln, s0, s1, hits)
+					}
+				}
+			}
+		}
+		c.Check(badFlag == "", "T-asm", "ToASM/data-flag", callee.Pos(), fmt.Sprintf("only scripts starting OP_RETURN or OP_FALSE OP_RETURN get the data rendering (%d cells, predicate %s)", fcells, funcName(callee)), "ToASM: "+badFlag)
 		return
 	}
 	pre, err := enumPaths(fn.Blocks[0], nil, map[*ssa.BasicBlock]bool{flag.Block(): true}, 4096)
